@@ -229,6 +229,8 @@ def run(ctx):
             d = dict(kv.split("=", 1) for kv in (x or "").split())
             if not has_mate:
                 d.pop("mate", None)         # Limits::mate is not initialised when the keyword is absent (and never read)
+            if (got or "").find("clock=-1") >= 0:
+                d.pop("clock", None)        # a tree whose Limits has no clock flag
             return d
         has_mate = exp is not None and "mate=-" not in exp
         if got is None or norm(got, has_mate) != norm(exp, has_mate):
